@@ -53,6 +53,15 @@ func (c *fctx) call(t *ast.CallExpr) string {
 		}
 		return s
 	}
+	if se, ok := t.Fun.(*ast.SelectorExpr); ok && c.x.kindOf(c.typeOf(se.X)) == kRef { // accessor of a record seen from outside
+		switch f.Name() {
+		case "Uip":
+			return fmt.Sprintf("(← Go.refUip %s %s)", c.expr(se.X), c.site(t.Pos()))
+		case "LeasedUntil":
+			return fmt.Sprintf("(← Go.refLeasedUntil %s %s)", c.expr(se.X), c.site(t.Pos()))
+		}
+		bad("method %s of an external record at %s", f.Name(), c.site(t.Pos()))
+	}
 	if ci := c.x.funcs[f]; ci != nil {
 		if len(ci.mutParams) > 0 {
 			bad("call of %s (writes through a parameter) in expression position at %s", ci.lean, c.site(t.Pos()))
@@ -79,6 +88,10 @@ func (c *fctx) call(t *ast.CallExpr) string {
 		return "(" + arg(0) + " == " + arg(1) + ")"
 	case "bytes.HasPrefix":
 		return "(Go.hasPrefix " + arg(0) + " " + arg(1) + ")"
+	case "fmt.Sprintf":
+		return c.sprintf(t)
+	case "(time.Duration).Seconds":
+		bad("time.Duration.Seconds outside uint32(d.Seconds()) at %s", c.site(t.Pos()))
 	case "math/rand.Perm":
 		return c.oracle("(List Int)") // trusted: a permutation of 0..n-1 (a hypothesis of the theorems that need it)
 	case "(time.Time).Add":
@@ -148,6 +161,9 @@ func (c *fctx) userCall(ci *FuncInfo, t *ast.CallExpr, args []string) string {
 		s += " E"
 		c.fi.effectful = true
 	}
+	if ci.heapful {
+		c.useHeap()
+	}
 	for _, a := range args {
 		s += " " + a
 	}
@@ -161,6 +177,12 @@ func (c *fctx) userCall(ci *FuncInfo, t *ast.CallExpr, args []string) string {
 }
 
 func (c *fctx) convert(arg ast.Expr, to types.Type, whole *ast.CallExpr) string {
+	if call, ok := arg.(*ast.CallExpr); ok && c.x.kindOf(to) == kU32 {
+		if f := calleeFunc(c.info, call); f != nil && f.FullName() == "(time.Duration).Seconds" {
+			// uint32(d.Seconds()): float64 seconds truncated; the Prelude's integer reading is trusted (DESIGN §13.3)
+			return "(Go.durSecondsU32 " + c.expr(call.Fun.(*ast.SelectorExpr).X) + ")"
+		}
+	}
 	from := c.typeOf(arg)
 	fk, tk := c.x.kindOf(from), c.x.kindOf(to)
 	s := c.expr(arg)
@@ -201,6 +223,14 @@ func (c *fctx) builtin(name string, t *ast.CallExpr) string {
 		return "(" + base + " ++ [" + strings.Join(parts, ", ") + "])"
 	case "make":
 		ty := c.typeOf(t)
+		if len(t.Args) == 3 { // make([]T, 0, cap): capacity is invisible under value semantics
+			if tv := c.info.Types[t.Args[1]]; tv.Value != nil && tv.Value.ExactString() == "0" {
+				return "([] : " + c.x.leanType(ty, false) + ")"
+			}
+		}
+		if _, isMap := ty.Underlying().(*types.Map); isMap && c.x.kindOf(ty) == kMap {
+			return "([] : " + c.x.leanType(ty, false) + ")"
+		}
 		if len(t.Args) != 2 {
 			break
 		}
@@ -237,4 +267,79 @@ func (c *fctx) funcValue(ci *FuncInfo) string {
 		ps = append(ps, fmt.Sprintf("p%d", i))
 	}
 	return "(fun " + strings.Join(ps, " ") + " => pure (Gen." + ci.lean + " " + strings.Join(ps, " ") + "))"
+}
+
+// sprintf: fmt.Sprintf with a constant format of literal text and the verbs %s (string/[]byte), %d, %x, %02x.
+func (c *fctx) sprintf(t *ast.CallExpr) string {
+	tv := c.info.Types[t.Args[0]]
+	if tv.Value == nil || tv.Value.Kind() != constant.String {
+		bad("Sprintf with a non-constant format at %s", c.site(t.Pos()))
+	}
+	f := constant.StringVal(tv.Value)
+	lit := func(s string) string {
+		var parts []string
+		for i := 0; i < len(s); i++ {
+			parts = append(parts, fmt.Sprintf("%d", s[i]))
+		}
+		return "([" + strings.Join(parts, ", ") + "] : Bytes)"
+	}
+	var parts []string
+	ai := 1
+	cur := ""
+	flush := func() {
+		if cur != "" {
+			parts = append(parts, lit(cur))
+			cur = ""
+		}
+	}
+	for i := 0; i < len(f); i++ {
+		if f[i] != '%' {
+			cur += string(f[i])
+			continue
+		}
+		rest := f[i+1:]
+		verb := ""
+		switch {
+		case strings.HasPrefix(rest, "%"):
+			cur += "%"
+			i++
+			continue
+		case strings.HasPrefix(rest, "02x"):
+			verb = "02x"
+		case strings.HasPrefix(rest, "s"), strings.HasPrefix(rest, "d"), strings.HasPrefix(rest, "x"):
+			verb = rest[:1]
+		default:
+			bad("Sprintf verb at %s", c.site(t.Pos()))
+		}
+		i += len(verb)
+		if ai >= len(t.Args) {
+			bad("Sprintf arity at %s", c.site(t.Pos()))
+		}
+		a := t.Args[ai]
+		ai++
+		k := c.x.kindOf(c.typeOf(a))
+		flush()
+		switch {
+		case verb == "s" && k == kBytes:
+			parts = append(parts, c.expr(a))
+		case verb == "02x" && k == kU8:
+			parts = append(parts, "(Go.fmtHex02 "+c.expr(a)+")")
+		case verb == "x" && isUint(k):
+			parts = append(parts, "(Go.fmtHex "+c.expr(a)+".toNat)")
+		case verb == "d" && k == kInt:
+			parts = append(parts, "(Go.fmtDec "+c.expr(a)+")")
+		case verb == "d" && isUint(k):
+			parts = append(parts, "(Go.fmtDec (Int.ofNat "+c.expr(a)+".toNat))")
+		default:
+			bad("Sprintf %%%s of %s at %s", verb, c.typeOf(a).String(), c.site(t.Pos()))
+		}
+	}
+	flush()
+	if ai != len(t.Args) {
+		bad("Sprintf arity at %s", c.site(t.Pos()))
+	}
+	if len(parts) == 0 {
+		return "([] : Bytes)"
+	}
+	return "(" + strings.Join(parts, " ++ ") + ")"
 }
